@@ -730,6 +730,56 @@ def flatten_orders(ctx, rule="RF"):
                   bad=("%s: the element order differs from the C-order flattenings / reshapes of the same points elsewhere" % bad[0]) if bad else "", line=bad[1] if bad else None)
 
 
+SHAPE_EQUALISERS = {"verde.base.utils.check_coordinates", "verde.base.utils.n_1d_arrays", "numpy.broadcast_arrays", "numpy.meshgrid", "numpy.ravel", "numpy.atleast_1d",
+                    "verde.base.utils.check_fit_input", "numpy.broadcast_to"}
+
+
+def in_place_cannot_broadcast(ctx, rule="RB"):
+    """`a = f(easting); a *= g(northing)`: an in-place operation writes into its LEFT operand, whose shape cannot grow.  When the left operand was
+    computed from one raw element of a coordinate tuple only and the right operand from another raw element, the result has the broadcast
+    shape of both only for the out-of-place form; in place it raises (or, for a scalar on the left, silently differs) for every query whose
+    arrays broadcast against each other (a row against a column).  Raw = not passed through a function that equalises shapes."""
+    def raw_elements(t):
+        """{(param, index)} of raw elements P[i] the term depends on; None if something else array-like (another call result) is involved"""
+        out = set()
+        stack = [t]
+        while stack:
+            x = stack.pop()
+            if not isinstance(x, tuple) or not x:
+                continue
+            if x[0] == "call" and callee(x) in SHAPE_EQUALISERS:
+                return None
+            if x[0] == "sub" and x[1][0] == "param" and is_const(x[2]) and isinstance(x[2][1], int):
+                out.add((x[1][1], x[2][1]))
+                continue
+            if x[0] == "attr" and x[1] == Q.SELF:
+                continue            # configuration scalars
+            if x[0] == "param":
+                return None
+            stack.extend(e for e in x if isinstance(e, tuple))
+        return out
+
+    for qn in scope(ctx):
+        fa = ctx.an.fa(qn)
+        if not fa.ok:
+            continue
+        bad = None
+        for fx in [fa] + list(fa.nested.values()):
+            for p in fx.paths:
+                for e in p.events:
+                    if e.kind != "aug" or e.data[1] not in ("*", "+", "-", "/", "**"):
+                        continue
+                    tgt, val = e.data[0], e.data[2]
+                    if tgt[0] not in ("call", "binop"):
+                        continue
+                    a, b = raw_elements(tgt), raw_elements(val)
+                    if a and b and not (b <= a) and {x[0] for x in a} == {x[0] for x in b}:
+                        bad = bad or ("%s is updated in place with %s: the left operand was computed from %s only and cannot take the broadcast shape of both"
+                                      % (show(tgt)[:50], show(val)[:50], ", ".join("%s[%d]" % x for x in sorted(a))), e.line)
+        ctx.check(rule, qn + "|in-place-updates-do-not-need-to-broadcast-the-left-operand", False if bad else True, "no in-place update whose left operand would have to be broadcast", fn=qn, nontrivial=False,
+                  bad=bad[0] if bad else "", line=bad[1] if bad else None)
+
+
 class _Sentinel:
     kind, data, line = "end", (), None
 
